@@ -155,17 +155,17 @@ def r16_2(ctx, b, m):
     starts = set()
     for cur in sorted(curs):
         for d in an.defs_of.get(cur, []):
-            if d.bb in region and d.kind == 'assign' and not d.partial:
+            if d.bb in region and d.kind in ('assign', 'local') and not d.partial:
                 t = an.def_term(d)
-                if t[0] in ('phi', 'rec') and (t[0] == 'rec' or t[1] != cur):
-                    starts.add(t[1] if t[0] == 'phi' else an.defs[t[1]].local)
+                if t[0] in ('phi', 'rec', 'mem') and (t[0] == 'rec' or t[1] != cur):
+                    starts.add(t[1] if t[0] in ('phi', 'mem') else an.defs[t[1]].local)
     if 'MoveTo' in m.arms and starts:
         mregion = arm_region(an.cfg, m.bb, m.arms['MoveTo'])
         stop = an.cfg.ipdom(m.bb)
         for st in sorted(starts):
             blocks = set()
             for d in an.defs_of.get(st, []):
-                if d.bb in mregion and d.kind == 'assign' and not d.partial:
+                if d.bb in mregion and d.kind in ('assign', 'local') and not d.partial:
                     t = an.def_term(d)
                     if t[0] == 'agg' and t[3] == 'Some' and payload(t[4][0][1], 'MoveTo', 0):
                         blocks.add(d.bb)
@@ -272,8 +272,22 @@ def r16_3(ctx, b, m):
             pushes = [(pb, pct) for pb, d, pct in calls_in(ctx, b, region) if d and d.endswith('Vec::<T, A>::push') and from_next(pct)]
             okp = len(pushes) == 1
             # the same loop as an internal iteration: flattened(..).for_each(|l| ops.push(LineTo(l)))
+            # ... or ops.extend(flattened(..).map(PathOp::LineTo)): every yielded point wrapped by the LineTo constructor
+            exts = [(fb, fct) for fb, d, fct in calls_in(ctx, b, region) if d and d.endswith('Extend::extend') and len(fct[2]) == 2]
+            if not pushes and len(exts) == 1:
+                src = strip_all(exts[0][1][2][1])
+                okx = is_call(src, 'Iterator::map') and strip_all(src[2][0]) == ct
+                if okx:
+                    fn_t = strip_all(src[2][1])
+                    okx = fn_t[0] == 'fn' and 'PathOp::LineTo' in str(fn_t[1])
+                tgt = strip_all(exts[0][1][2][0])
+                rr, nn = field_path(tgt)
+                okx = okx and nn[-1:] == ['ops'] and an.cfg.must_pass_through(m.arms[v], set([exts[0][0]]), exits=[an.cfg.ipdom(m.bb)] if an.cfg.ipdom(m.bb) is not None else None)[0]
+                ctx.check(okx, R, key + '|%s every point pushed' % v, call_line(b, bi), 'every yielded point is appended as LineTo (extend + map)',
+                          'the %s arm does not push every point yielded by flattened() as a LineTo' % v)
+                okp = None
             fes = [(fb, fct) for fb, d, fct in calls_in(ctx, b, region) if d and d.endswith('Iterator::for_each') and strip_all(fct[2][0]) == ct]
-            if not pushes and len(fes) == 1:
+            if not pushes and len(fes) == 1 and okp is not None:
                 clo = strip_all(fes[0][1][2][1])
                 if clo[0] == 'mem':
                     clo = shared.resolve_mem(an, clo)
